@@ -467,6 +467,8 @@ def run(ck: Check, repo: Repo) -> None:
     rule_value_flow(ck, repo)
     rule_window(ck, repo, folder)
     rule_notice_per_line(ck, repo)
+    from . import c07
+    c07.rule_tables_roundtrip(ck, repo, folder, "R8")
     # order hazards met while folding (reported under C14, noted here)
     for h in folder.hazards:
         if "extract" in h.context:
